@@ -260,3 +260,123 @@ func (e *Exec) hashMethod(o Opaque, method string, args []Value) (Value, bool) {
 	}
 	return nil, false
 }
+
+// ---------------- sync.Pool ----------------
+//
+// Get returns a fresh object from New (the pool never hands the same object to the explored call
+// twice, which is the most favourable behaviour for the code). Put marks the object, and every
+// byte buffer reachable from it, as released: from then on another goroutine's Get may own it, so
+// a function that still returns memory of a released object lets its caller read bytes that a
+// concurrent call may be overwriting - recorded as a "race:" event (C20).
+
+func (e *Exec) markReleased(v Value, depth int) {
+	if depth > 6 {
+		return
+	}
+	switch x := v.(type) {
+	case Ptr:
+		if x.Obj != nil && !x.Obj.Released {
+			x.Obj.Released = true
+			e.markReleased(x.Obj.Val, depth+1)
+		}
+	case Bytes:
+		if x.Buf != nil {
+			x.Buf.Released = true
+		}
+	case ByteArr:
+		if x.Buf != nil {
+			x.Buf.Released = true
+		}
+	case *Struct:
+		for _, f := range x.Fields {
+			e.markReleased(f, depth+1)
+		}
+	case *Array:
+		for _, f := range x.Elems {
+			e.markReleased(f, depth+1)
+		}
+	case Slice:
+		if x.Arr != nil && !x.Arr.Released {
+			x.Arr.Released = true
+			e.markReleased(x.Arr.Val, depth+1)
+		}
+	case Iface:
+		e.markReleased(x.Val, depth+1)
+	}
+}
+
+func (e *Exec) isReleased(v Value, depth int) bool {
+	if depth > 4 {
+		return false
+	}
+	switch x := v.(type) {
+	case Ptr:
+		return x.Obj != nil && x.Obj.Released
+	case Bytes:
+		return x.Buf != nil && x.Buf.Released
+	case Slice:
+		return x.Arr != nil && x.Arr.Released
+	case Tuple:
+		for _, f := range x {
+			if e.isReleased(f, depth+1) {
+				return true
+			}
+		}
+	case *Struct:
+		for _, f := range x.Fields {
+			if e.isReleased(f, depth+1) {
+				return true
+			}
+		}
+	case Iface:
+		return e.isReleased(x.Val, depth+1)
+	}
+	return false
+}
+
+func (e *Exec) checkReturnsReleased(fr *frame, rv Value) {
+	if rv != nil && e.isReleased(rv, 0) {
+		ev := "race:" + fr.fn.String() + " returns memory of an object it has put back into a sync.Pool"
+		for _, x := range e.path.events {
+			if x == ev {
+				return
+			}
+		}
+		e.path.events = append(e.path.events, ev)
+	}
+}
+
+func init() {
+	poolNew := func(e *Exec, p Ptr) Value {
+		st, ok := getPath(p.Obj.Val, p.Path).(*Struct)
+		if !ok {
+			return nil
+		}
+		sty, ok := p.Obj.Typ.Underlying().(*types.Struct)
+		if !ok || len(p.Path) > 0 {
+			return nil
+		}
+		for i := 0; i < sty.NumFields(); i++ {
+			if sty.Field(i).Name() == "New" {
+				return st.Fields[i]
+			}
+		}
+		return nil
+	}
+	stubs["(*sync.Pool).Get"] = func(e *Exec, fn *ssa.Function, args []Value) Value {
+		p := args[0].(Ptr)
+		if p.Obj == nil {
+			e.goPanicf("nil pointer dereference (sync.Pool)")
+		}
+		e.Notes["stub sync.Pool: Get always builds a fresh object with New; Put releases the object (use of released memory by the caller is a race event)"] = true
+		if f, ok := poolNew(e, p).(*Func); ok && f != nil && f.Fn != nil {
+			return e.callFn(f.Fn, nil, f.Bindings, nil)
+		}
+		return Iface{}
+	}
+	stubs["(*sync.Pool).Put"] = func(e *Exec, fn *ssa.Function, args []Value) Value {
+		e.anyReleased = true
+		e.markReleased(args[1], 0)
+		return nil
+	}
+}
